@@ -5,13 +5,13 @@ ID = "C17"
 LEVEL = "exploration"
 TECHNIQUE = ("runtime monitoring: sha256 of pre-existing targets around Tdf.new/copy, audit-hook log of write-capable opens, "
              "independent parse of created files, follow-up mutations on copy and original")
-RULE = ("5 target states (absent, existing TDF, existing non-TDF, existing empty file, directory) x {new, copy} x source "
+RULE = ("bad paths (absent, empty, garbage, short / partial / almost signature): fresh objects and objects created while the path still held a TDF file, four accessors tried twice each on the SAME object (an attempt after a refused attempt must be refused too); 5 target states (absent, existing TDF, existing non-TDF, existing empty file, directory) x {new, copy} x source "
         "files reached by 0..20-op histories on library-made and foreign tables; new files parsed by the reference parser "
         "(signature, version 1, 14 unused slots at 4096, length 4096, zero reserved words, dates inside the call window); "
         "copies compared byte for byte and mutated on one side; targets that exist under another spelling (same path, dir/../name, relative path, hard link, symbolic link); what the object returned by copy() reports through its own implicit contexts vs. a fresh object on the copy, also while the source goes on changing; opening absent / empty / garbage / near-signature files, also through an object created while the path still held a TDF; "
         "non-trivial = every case")
 ASSUMPTIONS = ["targets live on tmpfs under /dev/shm"]
-REQUIRED = {t: ["oracle:C17.existing-target-refused", "oracle:C17.new-is-canonical-empty",
+REQUIRED = {t: ["oracle:C17.open-non-tdf:attempt-on-one-object", "oracle:C17.existing-target-refused", "oracle:C17.new-is-canonical-empty",
                 "oracle:C17.copy-identical-and-independent", "oracle:C17.open-absent", "oracle:C17.open-non-tdf",
                 "c17:independence-checked", "oracle:C17.returned-object-reads-the-copy", "oracle:C17.open-non-tdf(object created earlier)",
                 "c17:alias:copy:hard-link", "c17:alias:copy:symlink", "c17:alias:new:dotdot-path", "oracle:C17.directory-otherwise-untouched", "c17:big-source", "c17:new:tdf", "c17:copy:non-tdf", "c17:copy:empty", "c17:new:directory"]
